@@ -585,7 +585,11 @@ fn run_c09<A: Alphabet>(f: &HashMap<String, String>) -> String {
             for (j, &x) in v.iter().enumerate() {
                 arr[j] = x as usize;
             }
-            fmt_bg_result(no_panic(|| Background::<A>::from_counts(&arr)))
+            format!(
+                "{} prof={}",
+                fmt_bg_result(no_panic(|| Background::<A>::from_counts(&arr))),
+                if cfg!(debug_assertions) { "dev" } else { "rel" }
+            )
         }
         "bgseq" => {
             let seqs = parse_seqs::<A>(&f["seqs"]);
@@ -918,6 +922,7 @@ fn gen_bg(rng: &mut Rng, k: usize) -> String {
             let v = dyadic_bg(rng, k, den, wild_mass, zeros);
             format!("new:{}", fmt_f32s(&v))
         }
+        8 if rng.chance(1, 2) => tiny_bg(rng, k),
         8 => {
             // the documented example background (decimal fractions, accepted)
             if k == 5 {
@@ -947,7 +952,7 @@ fn gen_bg(rng: &mut Rng, k: usize) -> String {
         }
         _ => {
             // from_counts
-            let style = rng.below(4);
+            let style = rng.below(5);
             let v: Vec<String> = (0..k)
                 .map(|j| {
                     let c = match style {
@@ -958,6 +963,14 @@ fn gen_bg(rng: &mut Rng, k: usize) -> String {
                                 0
                             } else {
                                 rng.below(50)
+                            }
+                        }
+                        // huge totals (no usize overflow: K * 2^58 < 2^63); a few cells tiny next to them
+                        3 => {
+                            if rng.chance(1, 3) {
+                                rng.below(3)
+                            } else {
+                                rng.below(1 << 58)
                             }
                         }
                         _ => rng.below(100000000),
@@ -1309,13 +1322,21 @@ fn gen_c09(rng: &mut Rng, id: usize, tier: &str) -> String {
         }
         format!("g{} k=bgnew a={} v={}", id, a, fmt_f32s(&v))
     } else if kind < 86 {
-        let style = rng.below(4);
+        let style = rng.below(6);
         let v: Vec<String> = (0..k)
             .map(|_| {
                 (match style {
                     0 => 0,
                     1 => rng.below(3),
                     2 => rng.below(1000),
+                    // huge totals: below 2^64 (K * 2^59 < 2^64) ...
+                    3 => rng.below(1 << 59),
+                    // ... and the usize overflow of the total (panic in dev, wrap in release);
+                    // 2^63 + 2^63 wraps to exactly 0
+                    4 => {
+                        let r = rng.next();
+                        *rng.pick(&[0u64, 0, 0, 1, 1 << 63, 1 << 63, u64::MAX, 1 << 62, r])
+                    }
                     _ => rng.below(1 << 40),
                 })
                 .to_string()
